@@ -101,17 +101,25 @@ pub fn gen_table(rng: &mut Rng) -> (TableSpec, Vec<PatT>) {
         let p = &pats[rng.below(pats.len())];
         let ng = if p.split.is_some() { 5 } else { p.groups.len() as u64 };
         let gidx = |rng: &mut Rng| rng.below(ng as usize + 2) as u64;
+        // the groups of an array / timestamp column may come from different patterns of the table
+        let mixed = pats.len() >= 2 && rng.chance(1, 3);
+        let any_ref = |rng: &mut Rng| -> (String, u64) {
+            if !mixed { return (p.name.clone(), gidx(rng)); }
+            let q = &pats[rng.below(pats.len())];
+            let nq = if q.split.is_some() { 5 } else { q.groups.len() };
+            (q.name.clone(), rng.below(nq + 2) as u64)
+        };
         let shape = rng.below(10);
         let (ty, src) = if shape == 0 {
             (rng.pick(&[Ty::Int, Ty::Text, Ty::Real]).clone(), Src::Inline(rng.pick(&["id=([0-9]+)", "\\[(\\w+)\\]", "v=(-?[0-9.]+)"]).to_string()))
         } else if shape <= 2 {
             let n = 2 + rng.below(3);
             let elem = match rng.below(4) { 0 => Ty::Int, 1 => Ty::Real, 2 => Ty::Text, _ => Ty::Bool };
-            (Ty::Arr(Box::new(elem)), Src::Multi((0..n).map(|_| (p.name.clone(), gidx(rng))).collect()))
+            (Ty::Arr(Box::new(elem)), Src::Multi((0..n).map(|_| any_ref(rng)).collect()))
         } else if shape == 3 || (shape == 4 && p.groups.len() == 7) {
             // timestamp from parts: usually the groups in order, sometimes fewer / shuffled
             let n = 2 + rng.below(7);
-            let refs: Vec<(String, u64)> = if p.groups.len() == 7 && rng.chance(3, 4) { (1..=n.min(7) as u64).map(|i| (p.name.clone(), i)).collect() } else { (0..n).map(|_| (p.name.clone(), gidx(rng))).collect() };
+            let refs: Vec<(String, u64)> = if p.groups.len() == 7 && rng.chance(3, 4) { (1..=n.min(7) as u64).map(|i| (p.name.clone(), i)).collect() } else { (0..n).map(|_| any_ref(rng)).collect() };
             (Ty::Ts, Src::Multi(refs))
         } else {
             let ty = match rng.below(8) { 0 | 1 => Ty::Int, 2 => Ty::Real, 3 | 4 => Ty::Text, 5 => Ty::Bool, 6 => Ty::Ts, _ => Ty::Iv };
